@@ -988,18 +988,10 @@ impl<K: Hash + Eq + Send + Sync + 'static> MokaCache<K, LifetimeCache<Arc<Varied
         key: K,
         response: VariedResponse,
     ) -> CacheOut<VariedResponse> {
-        let headers = response.first().0.get_identity().headers();
-        let cache_control = parse::CacheControl::from_headers(headers).ok();
-        // `kvarn-cache-control: none` means the response must not enter the server cache.
-        if headers.contains_key("kvarn-cache-control")
-            && cache_control.as_ref().map_or(false, |c| !c.store())
-        {
-            return CacheOut::NotInserted(response);
-        }
-        let lifetime = cache_control
-            .as_ref()
-            .and_then(parse::CacheControl::as_freshness)
-            .map(|s| u64::from(s).std_seconds());
+        let lifetime = match server_cache_lifetime(response.first().0.get_identity().headers()) {
+            Some(lifetime) => lifetime,
+            None => return CacheOut::NotInserted(response),
+        };
 
         debug!("Inserted item to cache with lifetime {lifetime:?}");
 
@@ -1010,6 +1002,26 @@ impl<K: Hash + Eq + Send + Sync + 'static> MokaCache<K, LifetimeCache<Arc<Varied
             response,
         )
     }
+}
+
+/// How long the `kvarn-cache-control` / `cache-control` headers of a response let it stay in the
+/// server cache. `Some(None)` means it never expires.
+///
+/// Returns [`None`] if the response must not enter the server cache (`kvarn-cache-control: none`).
+pub(crate) fn server_cache_lifetime(headers: &HeaderMap) -> Option<Option<Duration>> {
+    let cache_control = parse::CacheControl::from_headers(headers).ok();
+    // `kvarn-cache-control: none` means the response must not enter the server cache.
+    if headers.contains_key("kvarn-cache-control")
+        && cache_control.as_ref().map_or(false, |c| !c.store())
+    {
+        return None;
+    }
+    Some(
+        cache_control
+            .as_ref()
+            .and_then(parse::CacheControl::as_freshness)
+            .map(|s| u64::from(s).std_seconds()),
+    )
 }
 
 /// The item used in the cache.
